@@ -718,9 +718,12 @@ impl<T> ExternalError<T> for Result<T, ring_error::Unspecified> {
 impl<T> ExternalError<T> for Result<T, pem::PemError> {
 	fn _err(self) -> Result<T, Error> {
 		self.map_err(|e| match e {
-			// This error carries the offending line of the input, which may well be
-			// a line of a private key: don't repeat it in the error message.
+			// These errors carry part of the input, which may well be (part of) a private
+			// key: don't repeat it in the error message.
 			pem::PemError::InvalidHeader(_) => Error::PemError("invalid header".to_string()),
+			pem::PemError::MismatchedTags(_, _) => {
+				Error::PemError("mismatching BEGIN and END tags".to_string())
+			},
 			e => Error::PemError(e.to_string()),
 		})
 	}
